@@ -47,6 +47,81 @@ class FactsError(Exception):
     pass
 
 
+# ---------------------------------------------------------------------------
+# E5: the shipped string front-end and its copies
+# ---------------------------------------------------------------------------
+FRONTEND_COPIES = [
+    ("simple", "examples/simple.rs"),
+    ("fuzz", "fuzz/fuzz_targets/parse.rs"),
+    ("integ", "tests/integration_tests.rs"),
+    ("rng", "etc/correctness/rng-tests/_common.rs"),
+    ("golang", "etc/correctness/test-parse-golang/main.rs"),
+    ("random", "etc/correctness/test-parse-random/_common.rs"),
+    ("unit", "etc/correctness/test-parse-unittests/main.rs"),
+]
+FRONTEND_FNS = ["parse_sign", "to_digit", "add_digit_i32", "sub_digit_i32", "is_digit", "split_at_index", "consume_digits",
+                "ltrim_zero", "rtrim_zero", "parse_exponent", "case_insensitive_starts_with", "parse_float"]
+
+
+def _skip_literal(src, i):
+    """index after a string / char / byte literal starting at i, or i"""
+    c = src[i]
+    if c == '"':
+        j = i + 1
+        while j < len(src) and src[j] != '"':
+            j += 2 if src[j] == "\\" else 1
+        return j + 1
+    if c == "'":
+        # char literal 'x' or '\x'; lifetimes ('a) have no closing quote within 4 chars
+        if i + 2 < len(src) and src[i + 1] != "\\" and src[i + 2] == "'":
+            return i + 3
+        if i + 3 < len(src) and src[i + 1] == "\\" and src[i + 3] == "'":
+            return i + 4
+    return i
+
+
+def extract_frontend(path):
+    """front-end functions of one copy, taken from rustc's own pretty-printer output (-Zunpretty=normal: parsed, not
+    resolved, so copies whose other dependencies are not available still work)"""
+    r = subprocess.run(["rustc", "+nightly", "-Zunpretty=normal", "--crate-type", "lib", "--edition", "2018", path],
+                       capture_output=True, text=True)
+    if r.returncode != 0 or not r.stdout:
+        raise FactsError("cannot parse front-end copy %s:\n%s" % (path, r.stderr[-2000:]))
+    src = r.stdout
+    out = []
+    found = []
+    import re
+    for name in FRONTEND_FNS:
+        m = re.search(r"^(pub )?fn %s\b" % re.escape(name), src, re.M)
+        if not m:
+            continue
+        i = src.index("{", m.start())
+        # the body starts at the first `{` that is not inside the signature's generics: signatures here have none
+        depth = 0
+        j = i
+        while j < len(src):
+            k = _skip_literal(src, j)
+            if k != j:
+                j = k
+                continue
+            if src.startswith("//", j):
+                j = src.index("\n", j)
+                continue
+            if src[j] == "{":
+                depth += 1
+            elif src[j] == "}":
+                depth -= 1
+                if depth == 0:
+                    break
+            j += 1
+        item = src[m.start():j + 1]
+        if not item.startswith("pub "):
+            item = "pub " + item
+        out.append("#[inline]\n" + item)
+        found.append(name)
+    return "\n\n".join(out) + "\n", found
+
+
 def _sysroot_lib():
     out = subprocess.run(["rustc", "+nightly", "--print", "sysroot"], capture_output=True, text=True, check=True)
     return os.path.join(out.stdout.strip(), "lib")
@@ -78,16 +153,31 @@ def _run_driver(crate_dir, cargo_flags, mode, mono_crates, extra_roots="", featu
         facts_dir = os.path.join(scratch, "facts")
         os.makedirs(facts_dir)
         work = crate_dir
-        if repo is not None and repo != "/repo":
+        gen = features_extra == "frontends"
+        if gen or (repo is not None and repo != "/repo"):
             # analysis of a scratch copy of the repository: rewrite the path dependency
             work = os.path.join(scratch, "crate")
             shutil.copytree(crate_dir, work, ignore=shutil.ignore_patterns("target"))
+            if gen:
+                lib = os.path.join(work, "src", "lib.rs")
+                add = ["\n// ---- generated: front-end copies (E5) ----"]
+                for tag, rel in FRONTEND_COPIES:
+                    code, found = extract_frontend(os.path.join(repo or REPO, rel))
+                    if "parse_float" not in found or len(found) < 10:
+                        raise FactsError("front-end copy %s: only found %s" % (rel, found))
+                    with open(os.path.join(work, "src", "fe_%s.rs" % tag), "w") as f:
+                        f.write("#![allow(dead_code, unused, clippy::all)]\nextern crate minimal_lexical;\n" + code)
+                    add.append("#[cfg(feature = \"frontends\")]\nmod fe_%s;" % tag)
+                    for fty in ("f64", "f32"):
+                        add.append("#[cfg(feature = \"frontends\")]\npub fn root_fe_%s_%s(b: &[u8]) -> (%s, &[u8]) { fe_%s::parse_float::<%s>(b) }" % (tag, fty, fty, tag, fty))
+                with open(lib, "a") as f:
+                    f.write("\n".join(add) + "\n")
             for root, _d, files in os.walk(work):
                 for fn in files:
                     if fn.endswith((".toml", ".rs")):
                         p = os.path.join(root, fn)
                         s = open(p).read()
-                        if "/repo" in s:
+                        if "/repo" in s and repo and repo != "/repo":
                             open(p, "w").write(s.replace('"/repo', '"' + repo))
         onoff = "on" if mode == "dbg" else "off"
         env = dict(os.environ)
@@ -188,7 +278,7 @@ class Facts:
 
 
 def build(config, mode, frontends=False, repo=None):
-    extra = "fe_simple::main" if frontends else ""
+    extra = ""
     raw = _run_driver(ROOTS_DIR, CONFIGS[config], mode, "roots", extra_roots=extra,
                       features_extra="frontends" if frontends else None, repo=repo or REPO)
     return Facts(config, mode, raw)
